@@ -305,6 +305,13 @@ theorem C01_sub (env : Env) (text : String) (locExpr : J) (loc : List (String ×
   · rw [resolve_fn _ _ _ (by decide)]; unfold applyFn; simp only [ro_sub]
   · rw [resolve_fn _ _ _ (by decide), eachOf_two, hl]; unfold applyFn; simp only [ro_sub]; rfl
 
+/-- C01_base64_alphabet: the encoding is standard base64 (RFC 4648 §4: `+` and `/` as the last two letters, `=` padding),
+    not the URL-safe variant -/
+theorem C01_base64_alphabet :
+    base64OfString "???" = "Pz8/" ∧ base64OfString "~~~" = "fn5+" ∧ base64OfString "a" = "YQ==" ∧ base64OfString "ab" = "YWI=" ∧
+    b64Alphabet.length = 64 ∧ b64Alphabet.getD 62 'A' = '+' ∧ b64Alphabet.getD 63 'A' = '/' := by
+  decide +kernel
+
 end PycfModel.Resolver
 
 namespace PycfModel.Resolver
